@@ -32,6 +32,72 @@ pub trait Scenario: Sync {
     fn run(&self, src: &mut Source, obs: &mut Observer) -> Result<(), Violation>;
 }
 
+/// Liveness watchdog: every simulated run must return.  A run that keeps a worker busy for longer
+/// than the limit (an operation of the library under test never came back: an endless loop, a
+/// blocked wait) takes the process down with a recognisable message; the supervising layer
+/// (`bin/check` -> `isolate`) then finds the run, recovers its schedule from the crash journal and
+/// reports it as a violation with a replay file, exactly as for aborts.  Limit in seconds:
+/// `VERIF_RUN_TIMEOUT_S` (default 60; 0 disables; disabled under Miri, where one run may take minutes).
+pub mod watchdog {
+    use std::sync::atomic::{AtomicU64, AtomicUsize, Ordering};
+    use std::sync::Once;
+    use std::time::{Duration, Instant};
+
+    const SLOTS: usize = 256;
+    static STARTED: [AtomicU64; SLOTS] = [const { AtomicU64::new(0) }; SLOTS];
+    static NEXT_SLOT: AtomicUsize = AtomicUsize::new(0);
+    static INIT: Once = Once::new();
+    thread_local! {
+        static MY_SLOT: usize = NEXT_SLOT.fetch_add(1, Ordering::Relaxed) % SLOTS;
+    }
+
+    fn limit_s() -> u64 {
+        if cfg!(miri) {
+            return 0;
+        }
+        std::env::var("VERIF_RUN_TIMEOUT_S").ok().and_then(|v| v.parse().ok()).unwrap_or(60)
+    }
+
+    fn now_ms(t0: Instant) -> u64 {
+        t0.elapsed().as_millis() as u64 + 1
+    }
+
+    pub struct Guard(usize);
+    impl Guard {
+        pub fn enter() -> Guard {
+            static T0: std::sync::OnceLock<Instant> = std::sync::OnceLock::new();
+            let t0 = *T0.get_or_init(Instant::now);
+            INIT.call_once(|| {
+                let limit = limit_s();
+                if limit == 0 {
+                    return;
+                }
+                std::thread::spawn(move || loop {
+                    std::thread::sleep(Duration::from_millis(200));
+                    let now = now_ms(t0);
+                    for s in STARTED.iter() {
+                        let st = s.load(Ordering::Relaxed);
+                        if st != 0 && now.saturating_sub(st) > limit * 1000 {
+                            // (the text is the violation's signature: it must not depend on the limit)
+                            eprintln!("NONUNWIND-PANIC hang: a simulated run did not return within the run time limit (an operation of the library under test never came back)");
+                            let _ = limit;
+                            std::process::abort();
+                        }
+                    }
+                });
+            });
+            let slot = MY_SLOT.with(|s| *s);
+            STARTED[slot].store(now_ms(t0), Ordering::Relaxed);
+            Guard(slot)
+        }
+    }
+    impl Drop for Guard {
+        fn drop(&mut self) {
+            STARTED[self.0].store(0, Ordering::Relaxed);
+        }
+    }
+}
+
 thread_local! {
     static LAST_PANIC: RefCell<Option<(String, String)>> = const { RefCell::new(None) };
 }
@@ -95,6 +161,7 @@ fn classify_panic(obs: &Observer) -> Outcome {
 pub fn exec_gen(scen: &dyn Scenario, seed: u64, obs: &mut Observer) -> (Outcome, Case) {
     let mut src = Source::gen(seed);
     obs.begin_run();
+    let _alive = watchdog::Guard::enter();
     let r = panic::catch_unwind(AssertUnwindSafe(|| scen.run(&mut src, obs)));
     let out = match r {
         Ok(Ok(())) => Outcome::Ok,
@@ -108,6 +175,7 @@ pub fn exec_gen(scen: &dyn Scenario, seed: u64, obs: &mut Observer) -> (Outcome,
 pub fn exec_case(scen: &dyn Scenario, case: &Case, obs: &mut Observer) -> (Outcome, Case) {
     let mut src = Source::replay(case.clone());
     obs.begin_run();
+    let _alive = watchdog::Guard::enter();
     let r = panic::catch_unwind(AssertUnwindSafe(|| scen.run(&mut src, obs)));
     let out = match r {
         Ok(Ok(())) => Outcome::Ok,
